@@ -221,8 +221,18 @@ def work(job):
                 cex.append({"kind": "accepted_mismatch", "assignment": a, "concrete": X.render_concrete(ktc.PRELUDE + job["text"], a)})
             elif res != z3.unsat: cex.append({"kind": "unknown"})
             if len(samples) < 2: samples.append({"pc": [str(c)[:80] for c in pc][:6], "verdict": str(res)})
+        # validation of the encoding: one concrete instance per explored path goes through the native binary, which must agree on accept / reject
+        disagree = []; ndiff = 0
+        for pc, (kind, out) in r["paths"]:
+            if kind != "ok": continue
+            a = _assign(r, pc, S)
+            if not a and S: continue
+            conc = X.render_concrete(ktc.PRELUDE + job["text"], a)
+            ok, nout = native_accepts(k.pl.art["sylt"], conc); ndiff += 1
+            if not ok and "syntax error" in nout: continue      # the concrete spelling of a choice node does not parse in this context (e.g. a do-block as the only statement of a case arm): nothing to compare
+            if ok != out["accepted"]: disagree.append({"assignment": a, "kernel": "accepted" if out["accepted"] else "rejected (%s)" % out.get("phase"), "native": "accepted" if ok else "rejected", "concrete": conc})
         return {"name": job["name"], "status": "ok", "paths": len(r["paths"]), "accepted": acc, "rejected": rej, "panics": panics, "cex": cex, "queries": nq + r["queries"], "solver_s": solver_s,
-                "steps": r["steps"], "wall_s": time.time() - t0, "samples": samples, "core": job["core"], "placement": job["placement"]}
+                "steps": r["steps"], "wall_s": time.time() - t0, "samples": samples, "core": job["core"], "placement": job["placement"], "disagree": disagree[:5], "native_differential": ndiff}
     except Exception as e:
         return {"name": job["name"], "status": "engine_error", "why": "%s: %s %s" % (type(e).__name__, str(e)[:300], traceback.format_exc()[-600:])}
 
@@ -250,6 +260,9 @@ def run(tier):
         if r["status"] != "ok":
             fnd.undecided("%s: %s %s" % (r["name"], r["status"], r.get("why", "")[:300])); continue
         for k in tot: tot[k] += r.get(k, 0)
+        replayed += r.get("native_differential", 0)
+        for dg in r.get("disagree", []):
+            fnd.undecided("%s: the type checker executed from MIR says %s, the native binary %s for %s (the encoding disagrees with the implementation)" % (r["name"], dg["kernel"], dg["native"], dg["assignment"]))
         # nothing accepted = nothing was asserted; nothing rejected is only suspicious when no accepted mismatch was found either (those are reported below)
         if r["accepted"] == 0 or (r["rejected"] == 0 and not r["cex"]): vacuous.append(r["name"])
         for c in r["cex"]:
